@@ -35,4 +35,4 @@ pub(crate) fn requires_workspace_lock(tool_name: &str) -> bool {
 
 #[cfg(kani)]
 #[path = "/verif/harness/ripd/workspace_lock.rs"]
-mod verif_kani;
+pub mod verif_kani;
